@@ -592,7 +592,7 @@ impl Locale {
                 }
                 continue;
             };
-            let key = Key::new(&base_key).unwrap_at("merge_plurals_1");
+            let key = Key::try_new(&base_key)?;
             key_path.push_key(key);
             if !cfg!(feature = "plurals") && !SKIP_ICU_CFG.get() {
                 return Err(Error::DisabledPlurals {
